@@ -16,6 +16,11 @@
 /* differential run (tools/diffrun.py): the extracted TU is compiled by gcc; CBMC primitives that shims use inside IORA_ASSERT
  * conditions get native meanings (object identity is not checkable natively: true) */
 #define __CPROVER_same_object(a, b) 1
+#define __CPROVER_POINTER_OFFSET(p) ((size_t)(uintptr_t)(p))      /* only compared within one object */
+#define __CPROVER_POINTER_OBJECT(p) ((size_t)0)
+#define __CPROVER_r_ok(p, n) 1
+#define __CPROVER_w_ok(p, n) 1
+#define __CPROVER_rw_ok(p, n) 1
 #define __CPROVER_assume(c) ((void)0)
 #define __CPROVER_assert(c, msg) IORA_ASSERT(c, msg)
 /* contract clauses on declarations in pre.h / shim headers vanish: `T f_contract(args) __CPROVER_requires(..) ..;` is a plain prototype */
